@@ -325,7 +325,14 @@ def d3_dispatch(ctx):
         raise AnchorMissing("__getitem__: nothing evaluated")
 
 
+def dS_shared(ctx):
+    from sa.common import rule_no_shared_mutation
+    rule_no_shared_mutation(ctx, "DS", ['spikeglx.Reader.read', 'spikeglx.Reader.__getitem__', 'spikeglx.Reader.__init__', 'spikeglx.Reader.channel_conversion_sample2v', 'spikeglx._conversion_sample2v_from_meta', 'spikeglx.Reader.read_samples'],
+                            'a later read returns voltages scaled by a vector that an earlier read modified')
+
+
 def run(ctx):
+    ctx.run(dS_shared)
     ctx.run(d1_single_selector)
     ctx.run(d2_provenance)
     ctx.run(d2b_returned_index)
